@@ -228,13 +228,23 @@ def run_case(case) -> Result:
                     await W.sleep(0.01)
                     if "t" in box:
                         break
-                await box["t"]
+                exit_task = box["t"]
             else:
                 await pump_until(W.clock.t + float(case.get("exit_at", 1.0)))
                 if man.spa_state in busy_states:
                     info["busy_inject"] = True
-                await man.__aexit__(None, None, None)
+                exit_task = asyncio.ensure_future(man.__aexit__(None, None, None))
+            # leaving the context waits for every task; a task that refuses to end must not hang the harness
+            await asyncio.wait([exit_task], timeout=900.0)
             exited = True
+            if not exit_task.done():
+                live = sorted(t.get_name() for t in man._tasks if not t.done())
+                res.fail(f"C10|exit-never-returns|{live[0] if live else '?'}", f"leaving the manager context did not return within 900 virtual s; still running: {live}")
+                exit_task.cancel()
+                W.expect_leftover = True
+                return
+            if exit_task.exception() is not None:
+                raise exit_task.exception()
             t_exit = W.clock.t
             for g in info["gens"]:
                 if g["dead_at"] is None:
